@@ -117,6 +117,7 @@ def run(c):
     jobs += [(j, ["-matrix-design"]) for j in range(extra)] + [(j, ["-alias-design"]) for j in range(min(extra, 40))]
     jobs += [(j, ["-views-design"]) for j in range(extra)]
     jobs += [(j, ["-mapkey-design"]) for j in range(36 if c.tier == "quick" else 108)]  # every primitive as a map key
+    jobs += [(j, ["-any-design"]) for j in range(8)]  # the type Any everywhere
     jobs += [(3, ["-matrix-design", "-loose-defaults"])]  # collection defaults handed to Default() as []any / map[string]any
     c.cov["rule"] += (" Plus %d designs each of the systematic transport table (-matrix-design), the primitive-alias designs (-alias-design, at most 40) "
                       "and the result-type/view designs (-views-design); plus the table of every primitive as a map key in request body, response body and "
